@@ -28,9 +28,12 @@ import (
 	"github.com/google/badwolf/bql/grammar"
 	"github.com/google/badwolf/bql/lexer"
 	"github.com/google/badwolf/bql/semantic"
+	bqltable "github.com/google/badwolf/bql/table"
 	"github.com/google/badwolf/storage"
+	"github.com/google/badwolf/triple/literal"
 
 	"verif/common"
+	"verif/model"
 	"verif/recog"
 )
 
@@ -414,6 +417,12 @@ var corpus = []string{
 	`select ?s, ?o from ?g where {?s ?p ?o} having ?o > "10"^^type:int64;`,
 	`select ?s, ?o from ?g where {?s ?p ?o} having (?o > "10"^^type:int64) and not (?s = ?o);`,
 	`select ?s, ?t from ?g where {?s ?p ?o at ?t} having ?t < 2014-03-10T00:00:00-08:00;`,
+	// HAVING expressions that differ only in the letter case of an operand (operands are case sensitive): as first and
+	// as second statement of the history pairs, they must keep their own meaning
+	`select ?s, ?o from ?g where {?s ?p ?o} having ?o = "Alice"^^type:text;`,
+	`select ?s, ?o from ?g where {?s ?p ?o} having ?o = "alice"^^type:text;`,
+	`select ?s, ?o from ?g where {?s ?p ?o} having ?s = /u<Joe>;`,
+	`select ?s, ?o from ?g where {?s ?p ?o} having ?s = /u<joe>;`,
 	`select ?s from ?g where {?s ?p ?o} before 2006-01-01T15:04:05.999999999Z;`,
 	`select ?s from ?g where {?s ?p ?o} after 2006-02-03T15:04:05.999999999Z;`,
 	`select ?s from ?g where {?s ?p ?o} between 2006-01-01T15:04:05.999999999Z, 2006-02-03T15:04:05.999999999Z;`,
@@ -519,6 +528,29 @@ func dump(st *semantic.Statement) string {
 		}
 	}
 	b.WriteString("\n")
+	// what the evaluator built for the expression does, not only the tokens it was built from: its verdicts on probe
+	// rows that give every binding of the expression the same cell
+	if ev := st.HavingEvaluator(); ev != nil {
+		var bs []string
+		for _, ce := range st.HavingExpression() {
+			if !ce.IsSymbol() && ce.Token().Type == lexer.ItemBinding {
+				bs = append(bs, ce.Token().Text)
+			}
+		}
+		for pi, cell := range havingProbes {
+			row := bqltable.Row{}
+			for _, bn := range bs {
+				row[bn] = cell
+			}
+			var ok bool
+			var err error
+			if pn := common.Guard(func() { ok, err = ev.Evaluate(row) }); pn != nil {
+				fmt.Fprintf(&b, "  having on probe %d: panic\n", pi)
+			} else {
+				fmt.Fprintf(&b, "  having on probe %d: %v err=%v\n", pi, ok, err != nil)
+			}
+		}
+	}
 	fmt.Fprintf(&b, "limit set=%v n=%d\n", st.IsLimitSet(), st.Limit())
 	lo := st.GlobalLookupOptions()
 	fmt.Fprintf(&b, "bounds lower=%s upper=%s max=%d latest=%v offset=%d filter=%v\n", ts(lo.LowerAnchor), ts(lo.UpperAnchor), lo.MaxElements, lo.LatestAnchor, lo.Offset, lo.FilterOptions)
@@ -637,6 +669,23 @@ func histClassMulti(history []string, then string) string {
 }
 
 var addressesReused int64
+
+// probe cells for HAVING evaluators (see dump): texts, nodes and numbers in two spellings each
+var havingProbes = func() []*bqltable.Cell {
+	var out []*bqltable.Cell
+	for _, v := range []string{"Alice", "alice", "10", "11"} {
+		out = append(out, &bqltable.Cell{L: model.L(literal.Text, v)})
+	}
+	for _, v := range []int64{10, 11, 1, 2} {
+		out = append(out, &bqltable.Cell{L: model.L(literal.Int64, v)})
+	}
+	for _, id := range []string{"Joe", "joe"} {
+		out = append(out, &bqltable.Cell{N: model.N("/u", id)})
+	}
+	t := time.Date(2014, 3, 10, 0, 0, 0, 0, time.UTC)
+	out = append(out, &bqltable.Cell{T: &t})
+	return out
+}()
 
 // statementAt allocates statements until one lies at addr (the others are kept alive meanwhile, so every try is a new
 // address) and returns it; after 20000 tries it returns a statement somewhere else.
